@@ -239,9 +239,13 @@ def run_driver(driver, lines):
 # known findings
 # ------------------------------------------------------------------------------------------------
 def load_known(prop):
-    p = os.path.join(ROOT, 'known_findings.json')
-    if not os.path.exists(p): return []
-    return [e for e in json.load(open(p)).get('findings', []) if e.get('property') == prop and e.get('status') == 'known']
+    """known_findings.json plus per-property fragments known/<Cxx>*.json (same format)"""
+    import glob
+    out = []
+    for p in [os.path.join(ROOT, 'known_findings.json')] + sorted(glob.glob(os.path.join(ROOT, 'known', '*.json'))):
+        if os.path.exists(p):
+            out += [e for e in json.load(open(p)).get('findings', []) if e.get('property') == prop and e.get('status') == 'known']
+    return out
 
 
 def match_known(known, line):
@@ -419,12 +423,12 @@ def check2(prop, tier, seed, plugin, report, driver, t0):
             if plugin.nontrivial(r['line'], r['impl']): nontrivial.add(r['line'])
         elif r['impl'] != 'ERR': nontrivial.add(r['line'])
     obligations = report['obligations']
-    discharged = len(obligations) - len([b for b in report['broken_obligations'] if not b.startswith('forbidden')])
-    if report['broken_obligations'] and discharged == len(obligations): discharged -= 1
+    nbroken = len([b for b in report['broken_obligations'] if not b.startswith('forbidden')])
+    discharged = max(len(obligations) - nbroken, 0) if not report['broken_obligations'] else max(min(len(obligations) - nbroken, len(obligations) - 1), 0)
     ev = {
         'property_id': prop, 'tier': tier, 'seed': seed, 'level': 'proof',
         'coverage': {
-            'obligations': len(obligations), 'discharged': max(discharged, 0) if not report['broken_obligations'] else max(discharged, 0),
+            'obligations': len(obligations), 'discharged': discharged,
             'checker_cmd': 'cd lean && lake build driver ' + ' '.join(plugin.LEAN_PROOFS) + ' && lake env lean <#print axioms of every property theorem>'
                            + (' && lake env leanchecker ' + ' '.join(plugin.LEAN_PROOFS) if tier == 'thorough' else ''),
             'trusted_base': ['Lean 4.33.0 kernel', 'axioms used: ' + (', '.join(report['axioms']) or 'none'),
